@@ -3,3 +3,5 @@ import XzVerif.Props.C11
 #print axioms Props.C11.C11_headerLen_total
 #print axioms Props.C11.C11_props_in_range
 #print axioms Props.C11.C11_n_le_len
+#print axioms Props.C11.C11_writeMatch_never_panics
+#print axioms Props.C11.C11_ring_read_bounded
